@@ -4,6 +4,7 @@ mod http;
 mod nu;
 mod durrun;
 mod procrun;
+mod routes;
 mod sched;
 mod storegen;
 mod storerun;
@@ -104,6 +105,12 @@ fn main() {
                 }
             }
             println!("{{\"behaviours\": {n}, \"events\": {nev}}}");
+        }
+        "routes-run" => {
+            let inp = arg_val(&args, "--in").expect("--in");
+            let out = arg_val(&args, "--out").expect("--out");
+            let jobs: usize = arg_val(&args, "--jobs").map(|s| s.parse().unwrap()).unwrap_or(8);
+            routes::run(&inp, &out, jobs);
         }
         "codec-run" => {
             let inp = arg_val(&args, "--in").expect("--in");
